@@ -184,13 +184,29 @@ def r3(ctx):
         loop = loops[0]
         lv = loop.target.id
         over = C(loop.iter)
-        acc_updates = [n for n in walk_own(loop) if isinstance(n, (ast.Assign, ast.AugAssign))]
+        all_updates = [n for n in walk_own(loop) if isinstance(n, (ast.Assign, ast.AugAssign))]
+        # locals of one iteration (bound once in the loop, never mentioned outside it) are read through; the accumulator is what remains
+        outside = {x.id for x in ast.walk(f.node) if isinstance(x, ast.Name) and not any(x is y for y in ast.walk(loop))}
+        lenv_ = {}
+        for n in all_updates:
+            if isinstance(n, ast.Assign) and len(n.targets) == 1 and isinstance(n.targets[0], ast.Name) and n.targets[0].id not in outside \
+                    and sum(1 for m_ in all_updates if isinstance(m_, ast.Assign) and U(m_.targets[0]) == n.targets[0].id) == 1 \
+                    and n.targets[0].id not in {x.id for x in ast.walk(n.value) if isinstance(x, ast.Name)}:
+                lenv_[n.targets[0].id] = n.value
+        acc_updates = [n for n in all_updates if not (isinstance(n, ast.Assign) and isinstance(n.targets[0], ast.Name) and n.targets[0].id in lenv_)]
         acc = None
         forms = []
+
+        def union_text(v):
+            v = inline(v, lenv_)
+            # np.logical_or(a, b) of two boolean selection vectors is a | b
+            if isinstance(v, ast.Call) and U(v.func) in ("np.logical_or", "np.bitwise_or") and len(v.args) == 2 and not v.keywords:
+                v = ast.BinOp(left=v.args[0], op=ast.BitOr(), right=v.args[1])
+            return U(v).replace(" ", "")
         for n in acc_updates:
             if isinstance(n, ast.Assign) and isinstance(n.targets[0], ast.Name):
                 acc = acc or n.targets[0].id
-                forms.append(U(n.value).replace(" ", ""))
+                forms.append(union_text(n.value))
             elif isinstance(n, ast.AugAssign):
                 forms.append("AUG:" + U(n).replace(" ", ""))
         inits = [n for n in walk_own(f.node) if isinstance(n, ast.Assign) and acc and U(n.targets[0]) == acc and n not in acc_updates]
@@ -230,7 +246,8 @@ def r3(ctx):
         ctx.check("R3", f"{f.site()}::guards", parent_guard and empty_guard, "refuses empty input and views of different parents",
                   f"{'no refusal of an empty list; ' if not empty_guard else ''}{'no identity test of every view parent against the first one' if not parent_guard else ''}")
         rr = [x for x in returns(f.node) if isinstance(x.value, ast.Call)]
-        ok = len(rr) == 1 and len(rr[0].value.args) == 2 and C(rr[0].value.args[0]) == P and U(rr[0].value.args[1]) == acc
+        tail_copy = {k: v for k, v in env.items() if isinstance(v, ast.Name)}       # `result = acc` before the return
+        ok = len(rr) == 1 and len(rr[0].value.args) == 2 and C(rr[0].value.args[0]) == P and U(inline(rr[0].value.args[1], tail_copy)) == acc
         ctx.check("R3", f"{f.site()}::result", ok, "result is a view of the common parent with the accumulated selection",
                   f"concat returns `{U(rr[0].value) if rr else None}`")
 
